@@ -6,6 +6,7 @@ import (
 
 	"github.com/enbility/spine-go/api"
 	"github.com/enbility/spine-go/model"
+	"github.com/enbility/spine-go/util"
 )
 
 type EntityLocal struct {
@@ -122,6 +123,25 @@ func (r *EntityLocal) Features() []api.FeatureLocalInterface {
 	return r.features
 }
 
+// get a deep copy of the use case data
+//
+// the use case data functions modify the lists in place and DataCopy only
+// copies the first level, so the stored data and copies handed out earlier
+// would be modified otherwise
+func (r *EntityLocal) useCaseDataCopy() (*model.NodeManagementUseCaseDataType, error) {
+	nodeMgmt := r.device.NodeManagement()
+
+	data, err := LocalFeatureDataCopyOfType[*model.NodeManagementUseCaseDataType](nodeMgmt, model.FunctionTypeNodeManagementUseCaseData)
+	if err != nil {
+		return nil, err
+	}
+
+	copiedData := &model.NodeManagementUseCaseDataType{}
+	util.DeepCopy(data, copiedData)
+
+	return copiedData, nil
+}
+
 // add a new usecase
 func (r *EntityLocal) AddUseCaseSupport(
 	actor model.UseCaseActorType,
@@ -133,7 +153,7 @@ func (r *EntityLocal) AddUseCaseSupport(
 ) {
 	nodeMgmt := r.device.NodeManagement()
 
-	data, err := LocalFeatureDataCopyOfType[*model.NodeManagementUseCaseDataType](nodeMgmt, model.FunctionTypeNodeManagementUseCaseData)
+	data, err := r.useCaseDataCopy()
 	if err != nil {
 		data = &model.NodeManagementUseCaseDataType{}
 	}
@@ -173,7 +193,7 @@ func (r *EntityLocal) SetUseCaseAvailability(
 	available bool) {
 	nodeMgmt := r.device.NodeManagement()
 
-	data, err := LocalFeatureDataCopyOfType[*model.NodeManagementUseCaseDataType](nodeMgmt, model.FunctionTypeNodeManagementUseCaseData)
+	data, err := r.useCaseDataCopy()
 	if err != nil {
 		return
 	}
@@ -195,7 +215,7 @@ func (r *EntityLocal) RemoveUseCaseSupport(
 ) {
 	nodeMgmt := r.device.NodeManagement()
 
-	data, err := LocalFeatureDataCopyOfType[*model.NodeManagementUseCaseDataType](nodeMgmt, model.FunctionTypeNodeManagementUseCaseData)
+	data, err := r.useCaseDataCopy()
 	if err != nil {
 		return
 	}
@@ -214,7 +234,7 @@ func (r *EntityLocal) RemoveUseCaseSupport(
 func (r *EntityLocal) RemoveAllUseCaseSupports() {
 	nodeMgmt := r.device.NodeManagement()
 
-	data, err := LocalFeatureDataCopyOfType[*model.NodeManagementUseCaseDataType](nodeMgmt, model.FunctionTypeNodeManagementUseCaseData)
+	data, err := r.useCaseDataCopy()
 	if err != nil {
 		return
 	}
